@@ -7,6 +7,7 @@ ENG = {'Clipper2Lib::ClipperBase::AddPaths(': 'stub_addpaths', 'Clipper2Lib::Cli
        'Clipper2Lib::Clipper64::BuildPaths64(': 'stub_buildpaths64', 'Clipper2Lib::ClipperBase::CleanUp(': 'stub_cleanup'}
 BOTH = dict(OFFW, **ENG)
 BOTH['Clipper2Lib::ClipperOffset::CalcSolutionCapacity('] = 'stub_capacity'
+BOTH['Clipper2Lib::Clipper64::BuildTree64('] = 'stub_buildtree64'
 META = dict(
   level_text='Stub-and-observe model checking of the sign and orientation bookkeeping of polygon offsetting: for all deltas, join types and flags, a positively oriented polygon group is offset with the signed delta of the call, the clean-up union uses FillRule::Positive with ReverseSolution/PreserveCollinear forwarded unchanged, and |delta| < 0.5 hands the input paths to the union unchanged. The region clauses (distance bands for round/miter/square/bevel joins, over-shrink) depend on sqrt/sin/cos/acos/atan2 arithmetic followed by a full union and are NOT addressed: no symbolic engine on this image encodes them.',
   level_note='Workers and the inner Clipper64 are recorders; path coordinates are concrete; only scalar parameters are symbolic. This is a mechanism-level claim about join-side/sign handling, not about geometry.',
@@ -24,6 +25,7 @@ OBLIGATIONS = [
   O('C06.c-polygon-rules-reversed-3', 'off_dispatch.cpp', 'harness_dispatch_rules', defs=['LEN1=3', 'REVERSED'], replace=OFFW, unwind=8, bound='one negatively oriented triangle (reversed convention), all deltas (inflate up to 1e6)', desc='a negatively oriented polygon group is offset with the negated delta and is never dropped when inflating'),
   O('C06.c-polygon-rules-reversed-4', 'off_dispatch.cpp', 'harness_dispatch_rules', defs=['LEN1=4', 'REVERSED'], replace=OFFW, unwind=8, tiers='t', bound='one negatively oriented quadrilateral', desc='as above'),
   O('C06.c-orientation-bookkeeping', 'off_dispatch.cpp', 'harness_groups_independent', defs=['LEN0=3'], replace=BOTH, unwind=8, bound='two groups (triangle, triangle), all deltas / join / end types / flags', desc='signed delta reaches the Polygon worker; union = Positive fill, ReverseSolution and PreserveCollinear forwarded'),
+  O('C06.b-miter-limit-in-force', 'off_dispatch.cpp', 'harness_miter_limit_in_force', replace=BOTH, unwind=8, flags=['--slice-formula'], timeout=600, bound='miter limits from {0.5,1,1.5,2,4,10} at construction and set twice through MiterLimit(); three Executes (paths, paths, tree) on one object; all deltas', desc='the miter/square threshold (2/limit^2, 2 for limits <= 1) used during an Execute is that of the limit in force at that call'),
   O('C06.d-tiny-delta', 'off_dispatch.cpp', 'harness_tiny_delta', replace=BOTH, unwind=8, bound='|delta| < 0.5, all join/end types', desc='no offsetting worker runs; the input paths go to the union unchanged'),
   O('C06.c-polygon-rules-4', 'off_dispatch.cpp', 'harness_dispatch_rules', defs=['LEN1=4'], replace=OFFW, unwind=8, bound='one 4-point polygon, all deltas', desc='Polygon end type: OffsetPolygon with group delta == delta'),
 ]
